@@ -36,7 +36,7 @@ CLAIMED.update({
                 "the contract (Trace_SetKernels).",
         "design_ref": "DESIGN.md 3.4, 6 C08",
         "note": "exhaustive only up to the stated universe sizes; rank abstraction is monotone so order-only algorithms cannot tell; "
-                "trusts cython+gcc rebuild of the current source",
+                "trusts cython+gcc rebuild of the current source; beyond the small scope: strided / reversed / read-only operands, two views of one buffer, dense runs around every power-of-two block boundary up to 2048 (4096) and around every integer constant of the current .pyx source, and the long operands again from four threads at once",
         "technique": "TLA+ contract + algorithm model (TLC exhaustive), TLC trace validation of exhaustive small-scope kernel calls",
     },
     "C09": {
@@ -46,7 +46,7 @@ CLAIMED.update({
                 "event with oob/asan set.",
         "design_ref": "DESIGN.md 1, 3.4, 6 C09",
         "note": "memory safety of the binary is observed by instrumented rebuilds (Cython boundscheck, ASan), the specification "
-                "contributes the exhaustive input space and the requirement; if the decorator rewrite stops applying the check exits 2",
+                "contributes the exhaustive input space and the requirement; if the decorator rewrite stops applying the check exits 2; additionally every operand is placed against an inaccessible page in child processes (a dying child is bisected down to the single case that kills one)",
         "technique": "TLC invariant on index variables of the kernel model + trace validation of bounds-checked/ASan rebuild runs",
     },
     "C10": {
@@ -55,7 +55,7 @@ CLAIMED.update({
                 "generated indexes, and TLC validates each recorded (x, bytes, loaded) event: loaded data, int coordinate types, "
                 "uint32 arrays, rebuilt index equal and valid.",
         "design_ref": "DESIGN.md 3.6, 6 C10",
-        "note": "Big.tla byte arithmetic; real files under /verif/.work",
+        "note": "Big.tla byte arithmetic; real files under /verif/.work; many-entry files (entry counts around 2^8, 2^12, 2^16 and around every constant of the current indxio source) are judged on counts and sampled entries; saves issued from eight threads at once are judged like any other",
         "technique": "TLA+ format model (TLC exhaustive) + TLC trace validation of real save/load executions",
     },
     "C11": {
@@ -73,19 +73,19 @@ CLAIMED.update({
                 "additionally evaluates the acceptance logic on every prefix of the real bytes.",
         "design_ref": "DESIGN.md 3.6, 6 C12",
         "note": "relies on mmap refusing a mapping longer than the file (regular files on this filesystem); exhaustive over cut points, "
-                "bounded over files",
+                "bounded over files; system-call-level crash states of traced saves; concurrent saves",
         "technique": "TLC exhaustive crash-point model + exhaustive truncation replay on the real loader, validated by TLC",
     },
 })
 
 _IDX_NOTE = ("bounded: histories up to 9/14 steps, receivers up to 7 rows x 3 columns, value universes listed in index_chains.py; "
              "trusts the harness projection of an index (dict items, dtype flags, validate(True)), numpy.shares_memory and the "
-             "monotone rank abstraction used for values beyond 31 bits")
+             "monotone rank abstraction used for values beyond 31 bits; also string-valued universes, a caller's subclass, operands aliasing the receiver, four memory layouts of row-id arrays, INDX round trips inside histories, 4097-row events and events sized by the constants of the current iindexes source, ties and near-ties of the two most frequent values for every cell count up to 80")
 _IDX_TECH = ("TLA+ dense-array contract (IIndex.tla) + TLC trace validation of recorded operation histories on live objects; "
              "TLC-exhaustive refinement of the entries-level mirror (IIndexAlg); TLC-generated walks and the repository's own tests replayed")
 _CUBE_NOTE = ("bounded: 0-4 dimensions, 0-12 rows, extents 1-4 (+padding; 255/256/65536 sparsely), integer and quarter-valued facts, "
               "weights in {0,1/4,1/2,1,2,3}; floats are converted to small rationals and every mismatch is re-checked numerically "
-              "against TLC's exact expected value with the property's tolerance; numpy indexing of result blocks is trusted")
+              "against TLC's exact expected value with the property's tolerance; numpy indexing of result blocks is trusted; also wide extents on both sides of 2^7/2^8/2^15/2^16, one cube object evaluated repeatedly while its dimensions change in place, three call styles, signed and expansion-scale weights (the specification keeps unscaled weights and untranslated facts where the statistic is invariant), pooled evaluations under the scheduler, walks of thousands of rows sized by the constants of the current ccubes source, re-entered walks")
 _CUBE_TECH = ("TLA+ per-cell aggregation contract over exact rationals (Agg.tla) + TLC trace validation of real cube evaluations; "
               "TLC-exhaustive walk/differencing model (CCubeAlg) whose whole small scope is also replayed on the real index cube")
 CLAIMED.update({
@@ -139,7 +139,7 @@ CLAIMED.update({
 
 _POOL_NOTE = ("the deterministic scheduler serialises real threads and may pass the baton before any bytecode of catii code; a NumPy C "
               "call is one atomic step (GIL); the stand-in pool copies CPython 3.12 Pool.map chunking and first-recorded-failure "
-              "semantics; bounded: 3-12 sub-cubes, pool sizes 1-4 (1-16 with the real ThreadPool in the thorough tier)")
+              "semantics; bounded: 3-12 sub-cubes, pool sizes 1-4 (1-16 with the real ThreadPool in the thorough tier); code running with the GIL released is exercised by a real-thread leg (20000-row cubes, 1 microsecond switch interval); the callback raises one of fifteen exception classes, may be a falsy callable object and may sit on the cube's class; clauses that only describe how a run was organised are notes")
 CLAIMED.update({
     "C16": {"text": "TLC explores every interleaving of the pool model (chunks, checks, fills; P<=3, T<=9) and proves the pooled regions "
                     "equal the serial ones with disjoint write sets; real ccube/xcube evaluations run under a deterministic scheduler "
